@@ -5,6 +5,7 @@ import FeatModel.Lemmas.C13ExtSync
 import FeatModel.Lemmas.C13ExtEx
 import FeatModel.Lemmas.C13ExtSplitter
 import FeatModel.Lemmas.C13ExtAlias
+import FeatModel.Lemmas.C13ExtAsync
 /-! # C13 — distributed vector synchronisation (Gate / SynchVectorTicket / Global::Matrix) -/
 open FeatModel.Dist FeatModel.C13L
 
@@ -1055,3 +1056,103 @@ theorem C13.valiasLocal_type1 {α : Type} [Field α] (a b : α) (d : Decomp) (ys
     val ((valiasLocal a b ys).getD r []) i
       = (b * (Y (d.gdof r i) + a * Y (d.gdof r i))) * (b * (Y (d.gdof r i) + a * Y (d.gdof r i))) := by
   rw [FeatModel.C13L.valiasLocal_val a b ys r (by omega) i (by rw [hyl r hr]; exact hi), hY r hr i hi]
+
+/-! ## Extensions: asynchronous reductions -/
+
+/-- (Y1) on a gate without neighbours all frequencies are 1: the always-weighted local part of `dot_async` is the
+plain local dot product -/
+theorem C13.gdotAsyncLocal_eq {α : Type} [Field α] (p : Patch) (hp : p.nbrs.isEmpty = true) (x y : List α)
+    (hx : x.length = p.n) (hy : y.length = p.n) : gdotAsyncLocal p x y = dotLocal x y :=
+  FeatModel.C13L.gdotAsyncLocal_eq p hp x y hx hy
+
+/-- the local parts of `dot_async` and `dot` agree on every gate (with or without neighbours) -/
+theorem C13.gdotAsyncLocal_eq_gdotLocal {α : Type} [Field α] (p : Patch) (x y : List α)
+    (hx : x.length = p.n) (hy : y.length = p.n) : gdotAsyncLocal p x y = gdotLocal p x y :=
+  FeatModel.C13L.gdotAsyncLocal_eq_gdotLocal p x y hx hy
+
+/-- **`dot_async(…).wait() = dot(…)`** for every list of patches (no well-formedness, any patch count) -/
+theorem C13.gdotAsync_eq_gdot {α : Type} [Field α] (ps : List Patch) (xs ys : List (List α))
+    (hxl : ∀ r, r < ps.length → (xs.getD r []).length = (ps.getD r default).n)
+    (hyl : ∀ r, r < ps.length → (ys.getD r []).length = (ps.getD r default).n) :
+    gdotAsync none ps xs ys = gdot ps xs ys :=
+  FeatModel.C13L.gdotAsync_eq_gdot ps xs ys hxl hyl
+
+/-- (Y2) `dot_async` of two consistent vectors: the global dot product, each global DOF once -/
+theorem C13.gdotAsync_eq {α : Type} [Field α] [CharZero α] (d : Decomp) (h : d.WF) (xs ys : List (List α))
+    (X Y : Nat → α)
+    (hxl : ∀ r, r < d.np → (xs.getD r []).length = (d.patch r).n)
+    (hyl : ∀ r, r < d.np → (ys.getD r []).length = (d.patch r).n)
+    (hX : ∀ r, r < d.np → ∀ i, i < (d.patch r).n → val (xs.getD r []) i = X (d.gdof r i))
+    (hY : ∀ r, r < d.np → ∀ i, i < (d.patch r).n → val (ys.getD r []) i = Y (d.gdof r i)) :
+    gdotAsync none d.patches xs ys = ((d.maps.flatten.dedup).map fun g => X g * Y g).sum := by
+  rw [FeatModel.C13L.gdotAsync_eq_gdot d.patches xs ys hxl hyl]
+  exact C13.gdot_eq d h xs ys X Y hxl hyl hX hY
+
+theorem C13.gnorm2sqrAsync_eq {α : Type} [Field α] [CharZero α] (d : Decomp) (h : d.WF) (xs : List (List α))
+    (X : Nat → α)
+    (hxl : ∀ r, r < d.np → (xs.getD r []).length = (d.patch r).n)
+    (hX : ∀ r, r < d.np → ∀ i, i < (d.patch r).n → val (xs.getD r []) i = X (d.gdof r i)) :
+    gnorm2sqrAsync d.patches xs = ((d.maps.flatten.dedup).map fun g => X g * X g).sum ∧
+    gnorm2sqrAsync d.patches xs = gnorm2sqr d.patches xs :=
+  ⟨C13.gdotAsync_eq d h xs xs X X hxl hxl hX hX, FeatModel.C13L.gdotAsync_eq_gdot d.patches xs xs hxl hxl⟩
+
+theorem C13.gnorm2Async_eq {α : Type} [Field α] [CharZero α] (sqrt : α → α) (d : Decomp) (h : d.WF)
+    (xs : List (List α)) (X : Nat → α)
+    (hxl : ∀ r, r < d.np → (xs.getD r []).length = (d.patch r).n)
+    (hX : ∀ r, r < d.np → ∀ i, i < (d.patch r).n → val (xs.getD r []) i = X (d.gdof r i)) :
+    gnorm2Async sqrt d.patches xs = sqrt (((d.maps.flatten.dedup).map fun g => X g * X g).sum) ∧
+    gnorm2Async sqrt d.patches xs = gnorm2 sqrt d.patches xs := by
+  have e : gnorm2Async sqrt d.patches xs = sqrt (gdotAsync none d.patches xs xs) := rfl
+  refine ⟨by rw [e, C13.gdotAsync_eq d h xs xs X X hxl hxl hX hX], ?_⟩
+  rw [e, FeatModel.C13L.gdotAsync_eq_gdot d.patches xs xs hxl hxl]; rfl
+
+/-- the ticket's `sqrt` flag -/
+theorem C13.gdotAsync_sqrt {α : Type} [Field α] (f : α → α) (ps : List Patch) (xs ys : List (List α)) :
+    gdotAsync (some f) ps xs ys = f (gdotAsync none ps xs ys) := rfl
+
+theorem C13.sumAsync_eq {α : Type} [Field α] (f : α → α) (l : List α) :
+    sumAsync none l = l.sum ∧ sumAsync (some f) l = f l.sum :=
+  ⟨sumAsync_none l, sumAsync_some f l⟩
+
+example : ∀ r, r < exDecomp.patches.length → (exVs.getD r []).length = (exDecomp.patches.getD r default).n := by
+  decide
+
+/-- (Y3) **the unweighted combination of the local squared norms is not the global norm**: every global DOF is
+counted once per patch that contains it -/
+theorem C13.unweightedNormSqr_eq {α : Type} [Field α] (d : Decomp) (h : d.WF) (xs : List (List α)) (X : Nat → α)
+    (hn : xs.length = d.np)
+    (hxl : ∀ r, r < d.np → (xs.getD r []).length = (d.patch r).n)
+    (hX : ∀ r, r < d.np → ∀ i, i < (d.patch r).n → val (xs.getD r []) i = X (d.gdof r i)) :
+    unweightedNormSqr xs
+      = ((d.maps.flatten.dedup).map fun g => ((d.sharers g).length : α) * (X g * X g)).sum :=
+  FeatModel.C13L.unweightedNormSqr_eq d h xs X hn hxl hX _ (List.nodup_dedup _) (mem_flatten_dedup d h)
+
+/-- over an ordered field it is an upper bound of the true squared norm … -/
+theorem C13.unweightedNormSqr_ge {α : Type} [Field α] [LinearOrder α] [IsStrictOrderedRing α] (d : Decomp)
+    (h : d.WF) (xs : List (List α)) (X : Nat → α) (hn : xs.length = d.np)
+    (hxl : ∀ r, r < d.np → (xs.getD r []).length = (d.patch r).n)
+    (hX : ∀ r, r < d.np → ∀ i, i < (d.patch r).n → val (xs.getD r []) i = X (d.gdof r i)) :
+    gnorm2sqr d.patches xs ≤ unweightedNormSqr xs :=
+  FeatModel.C13L.unweightedNormSqr_ge d h xs X hn hxl hX
+
+/-- … and strictly larger as soon as one DOF shared by at least two patches carries a non-zero value -/
+theorem C13.unweightedNormSqr_gt {α : Type} [Field α] [LinearOrder α] [IsStrictOrderedRing α] (d : Decomp)
+    (h : d.WF) (xs : List (List α)) (X : Nat → α) (hn : xs.length = d.np)
+    (hxl : ∀ r, r < d.np → (xs.getD r []).length = (d.patch r).n)
+    (hX : ∀ r, r < d.np → ∀ i, i < (d.patch r).n → val (xs.getD r []) i = X (d.gdof r i))
+    (g : Nat) (hg : ∃ r, r < d.np ∧ g ∈ d.lmap r) (h2 : 2 ≤ (d.sharers g).length) (hXg : X g ≠ 0) :
+    gnorm2sqr d.patches xs < unweightedNormSqr xs :=
+  FeatModel.C13L.unweightedNormSqr_gt d h xs X hn hxl hX g hg h2 hXg
+
+/-- witness on the 3-patch example: the true squared norm is 88, the unweighted combination gives 187
+(DOF 0 with value 5 is in three patches, DOF 1 with value 7 in two) -/
+example : gnorm2sqr exDecomp.patches exVs = 88 ∧ unweightedNormSqr exVs = 187 := by
+  constructor
+  · rw [C13.gnorm2sqr_eq exDecomp exDecomp_wf exVs (fun g => ([5, 7, 1, 2, 3] : List ℚ).getD g 0) (by decide)
+      (by decide)]
+    have : exDecomp.maps.flatten.dedup = [2, 1, 3, 4, 0] := by decide
+    rw [this]
+    norm_num
+  · simp [unweightedNormSqr, allSum, dotLocal, exVs]
+    norm_num
+example : (∃ r, r < exDecomp.np ∧ 0 ∈ exDecomp.lmap r) ∧ 2 ≤ (exDecomp.sharers 0).length := by decide
